@@ -308,11 +308,14 @@ def script13(draw, depth=0):
             nameless = draw(st.floats(0, 1)) < 0.15
             ms = []
             for _ in range(draw(st.integers(1 if nameless else 0, 3))):
-                kind = draw(st.sampled_from(['cls', 'id', 'empty', 'raw', 'dqf', 'bool', 'dqe']))
+                kind = draw(st.sampled_from(['cls', 'id', 'empty', 'raw', 'dqf', 'bool', 'dqe', 'idf', 'clsf']))
                 if kind == 'cls':
                     ms.append(['.', [draw(st.sampled_from(['a', 'b', 'c']))]])
                 elif kind == 'id':
                     ms.append(['#', [draw(st.sampled_from(['i', 'j']))]])
+                elif kind in ('idf', 'clsf'):
+                    # explicit fields inside an id / class value (the indentation syntaxes print these through their own `#id.class` code path)
+                    ms.append(['a', 'id' if kind == 'idf' else 'class', 'dq', draw(value_with_fields()), False])
                 elif kind == 'empty':
                     ms.append(['a', draw(st.sampled_from(['t', 'title', 'href'])), 'none', None, False])
                 elif kind == 'raw':
@@ -326,8 +329,11 @@ def script13(draw, depth=0):
             # one mention per attribute name (merging is C03's business)
             seen = set()
             uniq = []
+            # id/class first (stable): the indentation syntaxes print them before every other attribute, so only then is the document order
+            # of the values the same in all syntaxes
+            ms = [m for m in ms if m[0] in '#.' or (m[0] == 'a' and m[1] in ('id', 'class'))] + [m for m in ms if not (m[0] in '#.' or (m[0] == 'a' and m[1] in ('id', 'class')))]
             for m in ms:
-                key = m[0] if m[0] in '#' else (m[1] if m[0] == 'a' else None)
+                key = 'id' if m[0] == '#' else (m[1] if m[0] == 'a' else None)
                 if key is not None and key in seen:
                     continue
                 seen.add(key)
